@@ -7,7 +7,9 @@ MODEL = "C06"
 MODEL_QUALID = "Model.TimeLimiter.run_script"
 FORMAT = ("script [cancel; dyn; n; T; t_0..t_(n-1); (op a b)*]: cancel bit0 = cancel_running_future(true), bit1 = the builder sets it before the timeout "
           "(builder-order glue), bits 2-3 = how the calls reach the service: 0 each on a fresh clone of one pristine value, 1 all on the SAME service value, "
-          "2 each on a clone of the value used by the previous call, 3 two handles alternately; dyn bit0: 0 = fixed timeout T, 1 = per-request timeout t_i "
+          "2 each on a clone of the value used by the previous call, 3 two handles alternately; bits 4.. = mask of callers (bit 4+j: caller j) whose inner call is "
+          "budget-hungry: until its completion every poll of it uses up the whole tokio cooperative budget of the polling task (harness only: property and "
+          "model do not distinguish it); dyn bit0: 0 = fixed timeout T, 1 = per-request timeout t_i "
           "for caller i; dyn bit1: the time unit of the script is the microsecond instead of the millisecond; a timeout >= 10^15 stands for Duration::MAX; "
           "op 1=Poll a 2=Drop a 3=Advance a 4=Complete a b(0 ok,1 err,2 panic) 5=Call a (build the future) 6=Advance a in one step (the harness does not "
           "walk millisecond by millisecond). "
@@ -16,7 +18,8 @@ FORMAT = ("script [cancel; dyn; n; T; t_0..t_(n-1); (op a b)*]: cancel bit0 = ca
 RULE = ("per caller a plan (first poll instant, optional Call before it, inner latency strictly below / exactly at / above the deadline or never, or completed "
         "before the first poll, ok/err/panic, prompt or late polls (also at/after the deadline with the result already there), optional cancellation) merged over "
         "1-4 (thorough: up to 6) concurrent callers with different per-request or one fixed timeout, both modes, both builder orders, four ways of reaching the service (fresh clone / "
-        "same value / clone of clone / two handles), same-instant events in random order, in three scales: milliseconds up to 30 ms walked ms by ms; "
+        "same value / clone of clone / two handles), inner calls that are ordinary or budget-hungry (every poll exhausts the cooperative budget; never completing, "
+        "completing before / at / after the deadline), same-instant events in random order, in three scales: milliseconds up to 30 ms walked ms by ms; "
         "50 ms .. 1 h timeouts crossed by single clock jumps; microsecond unit with timeouts off the 1 ms timer tick (0, 1, 500, 999, 1001, 1500, 1900 us ...), "
         "polls inside the tick window; Duration::MAX and 3-year timeouts that never fire; plus uniformly random scripts in each scale; "
         "plus (thorough) all scripts up to length 5 over a two-caller alphabet in ms (fresh clone and same-value handle) and us units; "
@@ -51,6 +54,17 @@ def tick_of(s):
 
 def handle_mode(s):
     return (max(0, s[0]) >> 2) & 3 if s else 0
+
+
+def hungry_mask(s):
+    return max(0, s[0]) >> 4 if s else 0
+
+
+def _hungry(rng, n):
+    """mask (already shifted) of callers with a budget-hungry inner call"""
+    if rng.random() < 0.6:
+        return 0
+    return 16 * rng.choice([(1 << n) - 1, rng.randrange(1, 1 << n)])
 
 
 def events(s):
@@ -247,6 +261,14 @@ def corpus():
         # Duration::MAX and a 3-year timeout never fire; the result still comes through
         [1, 1, 2, 0, 10 ** 18, 10 ** 11, 1, 0, 0, 1, 1, 0, 6, 10 ** 10, 0, 1, 0, 0, 1, 1, 0, 4, 0, 0, 4, 1, 1, 1, 0, 0, 1, 1, 0],
         [0, 0, 1, 10 ** 18, 0, 1, 0, 0, 6, 10 ** 10, 0, 1, 0, 0, 4, 0, 1, 1, 0, 0],
+        # budget-hungry inner calls (round-3 seed C06-t3: a bare sleep in select! is starved by them), both modes:
+        # never completing, polled at the deadline and later; completing before / exactly at / after the deadline
+        [17, 0, 1, 10, 0, 1, 0, 0, 3, 9, 0, 1, 0, 0, 3, 1, 0, 1, 0, 0, 3, 5, 0, 1, 0, 0],
+        [16, 0, 1, 10, 0, 1, 0, 0, 3, 9, 0, 1, 0, 0, 3, 1, 0, 1, 0, 0, 3, 5, 0, 4, 0, 0, 3, 1, 0],
+        [113, 1, 3, 0, 10, 10, 10, 1, 0, 0, 1, 1, 0, 1, 2, 0, 3, 9, 0, 1, 0, 0, 4, 0, 0, 1, 0, 0, 3, 1, 0, 4, 1, 1, 1, 1, 0, 1, 2, 0, 3, 1, 0, 4, 2, 0, 1, 2, 0],
+        [112, 1, 3, 0, 10, 10, 10, 1, 0, 0, 1, 1, 0, 1, 2, 0, 3, 9, 0, 1, 0, 0, 4, 0, 0, 1, 0, 0, 3, 1, 0, 4, 1, 1, 1, 1, 0, 1, 2, 0, 3, 1, 0, 4, 2, 0, 1, 2, 0],
+        [21, 0, 2, 60000, 0, 0, 1, 0, 0, 6, 30000, 0, 1, 1, 0, 6, 30000, 0, 1, 0, 0, 6, 30000, 0, 1, 1, 0],
+        [17, 2, 1, 1500, 0, 1, 0, 0, 3, 1999, 0, 1, 0, 0, 3, 1, 0, 1, 0, 0],
         # microsecond unit: 1500 us armed at 0 fires at the 2 ms tick; 999 us armed at 1 us fires at 1 ms; zero timeout off the tick
         [1, 2, 1, 1500, 0, 1, 0, 0, 3, 1499, 0, 1, 0, 0, 3, 1, 0, 1, 0, 0, 3, 499, 0, 1, 0, 0, 3, 1, 0, 1, 0, 0],
         [0, 3, 2, 0, 999, 0, 3, 1, 0, 1, 0, 0, 3, 499, 0, 1, 1, 0, 3, 499, 0, 1, 0, 0, 1, 1, 0, 3, 1, 0, 1, 0, 0, 1, 1, 0],
@@ -272,6 +294,7 @@ def plan_script(rng, maxn=4, scale=None):
     cancel = rng.choice([0, 1, 2, 3]) + 4 * rng.choice([0, 0, 1, 1, 2, 3])
     dyn = rng.choice([0, 1])
     n = rng.randint(1, maxn)
+    cancel += _hungry(rng, n)
     T = rng.choice(fixed)
     per = [rng.choice(pers) for _ in range(n)]
     if rng.random() < 0.12:
@@ -350,6 +373,7 @@ def random_script(rng, maxn=4, maxlen=30, scale=None):
     cancel = rng.choice([0, 1, 2, 3]) + 4 * rng.choice([0, 0, 1, 1, 2, 3])
     dyn = rng.choice([0, 1])
     n = rng.randint(1, maxn)
+    cancel += _hungry(rng, n)
     if scale == "ms":
         T = rng.choice([0, 2, 5, 10, 10 ** 18])                  # 10^18 stands for Duration::MAX
         per = [rng.choice([0, 1, 2, 5, 10, 10 ** 18]) for _ in range(n)]
@@ -398,12 +422,13 @@ def generate(rng, tier):
     if tier == "quick":
         out += [plan_script(rng) for _ in range(1800)]
         out += [random_script(rng) for _ in range(900)]
-        out += list(exhaustive(2, 0)) + list(exhaustive(2, 1)) + list(exhaustive(2, 5)) + list(exhaustive(2, 0, us=True)) + list(exhaustive(2, 1, us=True))
+        out += list(exhaustive(2, 0)) + list(exhaustive(2, 1)) + list(exhaustive(2, 5)) + list(exhaustive(2, 0, us=True)) + list(exhaustive(2, 1, us=True)) + list(exhaustive(2, 49)) + list(exhaustive(2, 48)) + list(exhaustive(2, 17, us=True))
     else:
         out += [plan_script(rng, rng.choice([4, 4, 6])) for _ in range(40000)]
         out += [random_script(rng, rng.choice([4, 4, 6]), 50) for _ in range(20000)]
         out += list(exhaustive(5, 0)) + list(exhaustive(5, 1)) + list(exhaustive(4, 4)) + list(exhaustive(4, 5))
         out += list(exhaustive(5, 0, us=True)) + list(exhaustive(5, 1, us=True))
+        out += list(exhaustive(4, 49)) + list(exhaustive(4, 48)) + list(exhaustive(4, 17, us=True))
     return out
 
 
@@ -455,6 +480,8 @@ def classify(s, t):
     cancel, n, tm = header(s)
     out = ["cancel" if cancel else "nocancel", "per_request" if (len(s) > 1 and max(0, s[1]) % 2) else "fixed", "callers%d" % n,
            "unit_us" if tick_of(s) > 1 else "unit_ms", "handle_" + ["fresh_clone", "same_value", "clone_of_clone", "two_handles"][handle_mode(s)]]
+    if hungry_mask(s) & ((1 << n) - 1):
+        out.append("hungry_inner")
     if any(BIG <= x for x in tm):
         out.append("duration_max")
     if any(10 ** 10 <= x < BIG for x in tm):
@@ -509,5 +536,7 @@ def shrink(s):
     k = len(body) // 3
     for i in range(k):
         yield head + body[:3 * i] + body[3 * i + 3:]
-    if head and head[0] >= 4:
-        yield [head[0] % 4] + head[1:] + body
+    if head and head[0] >= 16:
+        yield [head[0] % 16] + head[1:] + body          # no budget-hungry inner calls
+    if head and (head[0] >> 2) & 3:
+        yield [head[0] - 4 * ((head[0] >> 2) & 3)] + head[1:] + body   # fresh clone per call
